@@ -2547,3 +2547,16 @@ variant('b-provider-iterator-made-again-per-connect', ['C17'], 'rsocket/rsocket_
 variant('t-next-transport-through-a-local', ['C17', 'C16'], 'rsocket/rsocket_client.py',
         "            return await self._transport_provider.__anext__()\n",
         "            transport = await self._transport_provider.__anext__()\n            return transport\n", kind='twin')
+
+# module-level struct.pack of literals is folded (seed C02m answered exit 2 before)
+variant_multi('b-resume-version-from-a-packed-constant', ['C02'], [
+    ('rsocket/frame.py', "class ResumeFrame(Frame):\n", "_PROTOCOL_VERSION = struct.pack('>HH', 1, 0)\n\n\nclass ResumeFrame(Frame):\n"),
+    ('rsocket/frame.py', "        middle = struct.pack('>HH', self.major_version, self.minor_version)\n",
+     "        middle = _PROTOCOL_VERSION\n")],
+    ('C02.a', 'ResumeFrame'))
+
+# C04.m what a message transport queues comes from the frame parser
+variant('b-feeder-queues-the-last-parsed-frame-after-the-loop', ['C04'], 'rsocket/transports/quart_websocket.py',
+        "                async for frame in self._frame_parser.receive_data(data, 0):\n                    self._incoming_frame_queue.put_nowait(frame)\n",
+        "                frame = None\n                async for frame in self._frame_parser.receive_data(data, 0):\n                    pass\n                self._incoming_frame_queue.put_nowait(frame)\n",
+        ('C04.m', 'queues frame'))
